@@ -47,6 +47,19 @@ func (m *Machine) info(fn *ssa.Function) *funcInfo {
 	} else if mod := m.modelByPattern(fn); mod != nil {
 		fi.model = mod
 	}
+	if fi.model != nil && allocatingCalls[fi.name] {
+		inner, nm := fi.model, fi.name
+		fi.model = func(m *Machine, fr *Frame, a []Value) Value {
+			m.allocEvent("call of " + nm)
+			return inner(m, fr, a)
+		}
+	} else if fi.model != nil && fn.Blocks == nil && fn.Name() == "mallocgc" {
+		inner := fi.model
+		fi.model = func(m *Machine, fr *Frame, a []Value) Value {
+			m.allocEvent("runtime.mallocgc")
+			return inner(m, fr, a)
+		}
+	}
 	if fi.model == nil && !fi.noBody {
 		fi.index = map[ssa.Value]int{}
 		n := 0
@@ -70,6 +83,13 @@ func (m *Machine) info(fn *ssa.Function) *funcInfo {
 	}
 	m.finfo[fn] = fi
 	return fi
+}
+
+// allocatingCalls: modelled library functions that allocate on the heap on every call (C18 monitor).
+var allocatingCalls = map[string]bool{
+	"reflect.New": true, "reflect.MakeMap": true, "reflect.MakeMapWithSize": true,
+	"fmt.Sprintf": true, "fmt.Sprint": true, "fmt.Errorf": true, "errors.New": true,
+	"strings.Split": true, "strings.Join": true, "sort.Slice": true,
 }
 
 type envT struct {
@@ -538,6 +558,11 @@ func (m *Machine) exec(fr *Frame, ins ssa.Instruction) {
 		if k > m.cfg.MaxAlloc {
 			m.unsupported("make([]T, %d) too large for the engine", k)
 		}
+		_, lenConst := x.Len.(*ssa.Const)
+		_, capConst := x.Cap.(*ssa.Const)
+		if !lenConst || !capConst {
+			m.allocEvent("make([]" + et.String() + ", n) with a non-constant size")
+		}
 		b := m.allocObj(et, k, "make([]"+et.String()+")")
 		fr.env.set(x, Agg{m.ptr(b), c.Const(uint64(n), 64), c.Const(uint64(k), 64)})
 	case *ssa.MakeMap:
@@ -554,6 +579,7 @@ func (m *Machine) exec(fr *Frame, ins ssa.Instruction) {
 	case *ssa.TypeAssert:
 		fr.env.set(x, m.typeAssert(fr, x))
 	case *ssa.Go:
+		m.allocEvent("go statement")
 		m.goStmt(fr, x)
 	default:
 		m.unsupported("instruction %T: %s", ins, ins)
